@@ -562,6 +562,107 @@ def check_homogeneity_adaptive(mname, model, h, st, sname):
                 fail("homogeneity/" + label.split("/")[0], rec)
 
 
+def check_large_step(r):
+    """LARGE local dimension and LARGE step: a spin coupled to a boson with 60-100 levels, dt * ||H|| of 60-300 (local half steps of 30-150), full bond dimension.
+    The projector-splitting schemes are exact for any step at full bond dimension (vs dense expm; norm and energy conserved); the Lanczos
+    exponential then needs more than one block of Krylov vectors.  CMF: krylov and RK45 on the coefficient site must agree."""
+    for order in ("spin-boson", "boson-spin", "spin-boson-spin"):
+        nbas = int(r.choice([60, 80, 100]))
+        w = float(r.uniform(0.8, 1.2))
+        bos = ba.BasisSHO("v", w, nbas)
+        names = {"spin-boson": ["s0", "v"], "boson-spin": ["v", "s0"], "spin-boson-spin": ["s0", "v", "s1"]}[order]
+        basis = [bos if n == "v" else ba.BasisHalfSpin(n) for n in names]
+        terms = [Op(r"b^\dagger b", "v", w)]
+        for sname_ in [n for n in names if n != "v"]:
+            terms += [Op("sigma_z", sname_, float(r.uniform(0.3, 0.7))), Op("sigma_x", sname_, float(r.uniform(0.2, 0.4))),
+                      Op(r"sigma_z b^\dagger+b", [sname_, "v"], float(r.uniform(0.4, 0.9)))]
+        model = Model(basis, terms)
+        mpo = Mpo(model)
+        h = np.asarray(mpo.todense())
+        hn = float(np.linalg.norm(h, 2))
+        np.random.seed(int(r.randint(0, 2 ** 31 - 1)))
+        st = Mps.random(model, 0, 4, percent=1.0)
+        st.canonicalise().canonicalise()
+        st.normalize("mps_and_coeff")
+        psi = dense_of(st)
+        e0 = float(np.real(psi.conj() @ h @ psi))
+        for dt in (60.0 / hn, 140.0 / hn, 300.0 / hn):     # the local solves run over dt/2: 30, 70, 150 times the spectral radius
+            ref = ref_vec(h, psi, dt)
+            for label, method in (("ps/krylov", "tdvp_ps"), ("ps2/krylov", "tdvp_ps2")):
+                if time.time() - T0 > 1.5 * BUDGET:
+                    return
+                try:
+                    out = dense_of(run(st, mpo, method, {"ivp_solver": "krylov"}, dt, m_max=8))
+                    e = float(np.linalg.norm(out - ref))
+                    dn = abs(float(np.linalg.norm(out)) - 1.0)
+                    de = abs(float(np.real(out.conj() @ h @ out)) - e0)
+                except Exception as ex:
+                    rec = {"check": "large-step", "scheme": label, "order": order, "nbas": nbas, "dt_normH": dt * hn, "exc": repr(ex)[:300]}
+                    records.append(rec)
+                    fail("large-step/" + label, rec)
+                    continue
+                rec = {"check": "large-step", "scheme": label, "order": order, "nbas": nbas, "dt_normH": dt * hn, "err": e, "norm_drift": dn, "energy_drift": de}
+                records.append(rec)
+                if not (np.isfinite(e) and e <= 1e-6 and dn <= 1e-7 and de <= 1e-6 * max(1.0, abs(e0), hn)):
+                    fail("large-step/" + label, rec)
+        # CMF: the coefficient (last) site carries the krylov / RK45 choice; moderate-large step, both must agree
+        dt = 20.0 / hn
+        try:
+            a = dense_of(run(st, mpo, "tdvp_mu_cmf", {"ivp_solver": "krylov"}, dt, m_max=8))
+            b = dense_of(run(st, mpo, "tdvp_mu_cmf", {"ivp_solver": "RK45"}, dt, m_max=8))
+            d = float(np.linalg.norm(a - b))
+            rec = {"check": "large-step", "scheme": "cmf krylov vs RK45", "order": order, "nbas": nbas, "dt_normH": dt * hn, "diff": d}
+            records.append(rec)
+            if not (np.isfinite(d) and d <= 1e-3):
+                fail("large-step/cmf", rec)
+        except Exception as ex:
+            rec = {"check": "large-step", "scheme": "cmf", "order": order, "nbas": nbas, "exc": repr(ex)[:300]}
+            records.append(rec)
+            fail("large-step/cmf", rec)
+
+
+def check_nonuniform_limits(r):
+    """per-bond limits (CompressConfig.max_dims non-uniform), criteria fixed / both: (i) limits = exact ranks: nothing may be truncated, the two-site
+    sweep is exact, for both start directions; (ii) one bond reduced: every bond of the result obeys ITS OWN limit (PS2 and the P&C schemes)"""
+    n = 6
+    model, h, dims = spin_model(n, r)
+    mpo = Mpo(model)
+    exact = [1, 2, 4, 8, 4, 2, 1]
+    st = rand_state(model, r, 0, 16, complex_=True)
+    for start in ("left", "right"):
+        s0 = st.copy()
+        if start == "right":
+            s0.ensure_right_canonical()
+        psi = dense_of(s0)
+        for crit in ("fixed", "both"):
+            for lims, what in ((exact, "exact-ranks"), ([1, 2, 4, 3, 4, 2, 1], "bond3-reduced"), ([1, 2, 3, 8, 2, 2, 1], "bonds2,4-reduced")):
+                for label, method, cfg in (("ps2/krylov", "tdvp_ps2", {"ivp_solver": "krylov"}), ("ps2/RK45", "tdvp_ps2", {"ivp_solver": "RK45"}),
+                                           ("taylor4", "prop_and_compress", {}), ("tdrk4", "prop_and_compress_tdrk4", {})):
+                    if time.time() - T0 > 1.5 * BUDGET:
+                        return
+                    if what == "exact-ranks" and not method.startswith("tdvp"):
+                        continue
+                    dt = 0.1
+                    try:
+                        a = s0.copy()
+                        set_cfg(a, method, m_max=64, criteria=crit, **cfg)
+                        a.compress_config.max_dims = np.array(lims)
+                        out = a.evolve(mpo, dt)
+                        bd = [int(x) for x in out.bond_dims]
+                        e = float(np.linalg.norm(dense_of(out) - ref_vec(h, psi, dt)))
+                    except Exception as ex:
+                        rec = {"check": "nonuniform-limits", "scheme": label, "start": start, "criteria": crit, "limits": lims, "exc": repr(ex)[:300]}
+                        records.append(rec)
+                        fail("nonuniform-limits/" + label.split("/")[0], rec)
+                        continue
+                    rec = {"check": "nonuniform-limits", "scheme": label, "start": start, "criteria": crit, "limits": lims, "case": what, "bond_dims": bd, "err": e}
+                    records.append(rec)
+                    over = any(b_ > l_ for b_, l_ in zip(bd, lims))
+                    inexact = what == "exact-ranks" and not e <= (1e-7 if "krylov" in label else 1e-4)
+                    if over or inexact:
+                        fail("nonuniform-limits/" + label.split("/")[0], rec)
+
+
 CFG_FIELDS = ("method", "adaptive", "adaptive_rtol", "tdvp_cmf_midpoint", "tdvp_cmf_c_trapz", "reg_epsilon", "ivp_rtol", "ivp_atol",
               "ivp_solver", "force_ovlp", "vmf_auto_switch")
 
@@ -679,6 +780,8 @@ for mi_, kind in enumerate(("spin", "holstein")):
     jobs.append(("homogeneity-adaptive", kind, 0))
     jobs.append(("negative-adaptive", kind, 0))
 jobs.append(("ps1", "spin", 0))
+jobs.append(("large-step", "spin", 0))
+jobs.append(("nonuniform-limits", "spin", 0))
 jobs.append(("callable", "spin", 0))
 
 mine = [j for i, j in enumerate(jobs) if i % NSH == SHARD]
@@ -723,6 +826,10 @@ for what, kind, li in mine:
         check_negative_adaptive(mname, model, h, st_r, "real")
     elif what == "reuse":
         check_reuse(mname, model, h, st_c, "complex", table[li:li + 10])
+    elif what == "large-step":
+        check_large_step(r2)
+    elif what == "nonuniform-limits":
+        check_nonuniform_limits(r2)
     elif what == "ps1":
         check_ps1_conservation(r2)
     elif what == "callable":
